@@ -106,7 +106,7 @@ def _fillInBlanks(
 
     # Special case: empty textgrid
     if len(tier["entries"]) == 0:
-        tier["entries"].append((minTime, maxTime, blankLabel))
+        tier["entries"].append((float(minTime), float(maxTime), blankLabel))
 
     # Create a new entry list
     entries = tier["entries"]
@@ -129,7 +129,7 @@ def _fillInBlanks(
             "The entries are shorter than the min time specified in the textgrid."
         )
     if float(newEntries[0][0]) > float(minTime):
-        newEntries.insert(0, (minTime, newEntries[0][0], blankLabel))
+        newEntries.insert(0, (float(minTime), newEntries[0][0], blankLabel))
 
     # Special case -- if there is a gap at the end of the file
     if maxTime is not None:
@@ -138,7 +138,7 @@ def _fillInBlanks(
                 "The entries are longer than the max time specified in the textgrid."
             )
         if float(newEntries[-1][1]) < float(maxTime):
-            newEntries.append((newEntries[-1][1], maxTime, blankLabel))
+            newEntries.append((newEntries[-1][1], float(maxTime), blankLabel))
 
     newEntries.sort()
     tier["entries"] = newEntries
